@@ -27,6 +27,17 @@ QYEARS_Q = [1996, 1997, 2000, 2003]
 QYEARS_T = [1996, 1997, 1999, 2000, 2001, 2003, 2004, 2007]
 
 
+def match_negative_dst(payload):
+    """tzical zone whose DAYLIGHT offset is smaller than its STANDARD offset (negative saving)."""
+    inp = payload.get("input") or {}
+    return (bool(inp.get("negative_dst")) and
+            payload.get("kind", "") in ("tzical zone differs from the POSIX specification at a UTC instant",
+                                        "before the first onset the first STANDARD component does not apply"))
+
+
+MATCHERS = {"c17_negative_dst_saving": match_negative_dst}
+
+
 def fmt_off(o):
     sign = "+" if o >= 0 else "-"
     a = abs(o)
@@ -190,6 +201,7 @@ def check_zone(verdict, st, o, r, rng, qyears, idx, tier):
     guards = {"wf": bool(g[0]), "apart": bool(g[1]), "d8": bool(g[2])}
     in_guard = guards["wf"] and guards["apart"]
     ds = r["dst"]
+    neg = ds["off"] < r["off"]            # negative saving: compared with the spec too (finding F-C17-1)
     form = "rrule" if (idx % 2 == 0 and expressible(r)) else "rdate"
     order = "daylight_first" if (idx // 2) % 2 == 0 else "standard_first"
     fold_lines = (idx % 3 == 0)
@@ -213,7 +225,15 @@ def check_zone(verdict, st, o, r, rng, qyears, idx, tier):
         st.model_diff += 1
         verdict.violation({"kind": "correspondence: _parse_rfc differs from the model",
                            "input": {"text": text}, "impl": impl_structure(ic), "model": ms}, concrete=False)
-    z = ic.get()
+    try:
+        z = ic.get()
+    except Exception as ex:
+        z = None
+        status = [P.exc_code(ex)]
+    if z is None:
+        verdict.violation({"kind": "well-formed single-zone VTIMEZONE: get() does not return the zone",
+                           "input": {"text": text, "rule": r}, "impl": status})
+        return
     comps = model_comps(r, dl, sd, order)
     ec = enc_comps(comps)
     # instants: events of the query years, the very first onset, before it
@@ -252,11 +272,15 @@ def check_zone(verdict, st, o, r, rng, qyears, idx, tier):
             zs = tz.tzstr(canon)
         except Exception:
             zs = None
-    base = {"rule": r, "text": text, "form": form, "order": order, "guards": guards, "tzstr": canon}
+    base = {"rule": r, "text": text, "form": form, "order": order, "guards": guards, "tzstr": canon,
+            "negative_dst": neg}
+    if neg:
+        st.bump("negative_saving_zones")
     for k, u in enumerate(us):
         iu, sp = impl_u[k], spec_u[k]
         after = u >= first
-        spec_bad = in_guard and after and (iu[0] != 0 or [iu[3], iu[4], iu[5]] != sp or iu[1] != u + sp[0])
+        spec_bad = ((in_guard or (neg and guards["wf"])) and after and
+                    (iu[0] != 0 or [iu[3], iu[4], iu[5]] != sp or iu[1] != u + sp[0]))
         if not after:
             st.bump("utc_before_first_onset")
             # before the first onset the first STANDARD component applies
@@ -449,7 +473,7 @@ def main():
         return replay(argv[argv.index("--replay") + 1])
     tier = C.tier_from_argv(argv)
     t0 = time.time()
-    verdict = C.Verdict(CID, {})
+    verdict = C.Verdict(CID, MATCHERS)
     st = Stats()
     build_err = None
     try:
@@ -466,7 +490,7 @@ def main():
         o = C.Oracle(AREA)
         rng = C.rng("C17")
         qyears = QYEARS_Q if tier == "quick" else QYEARS_T
-        n_zones = 150 if tier == "quick" else 2500
+        n_zones = 150 if tier == "quick" else 1500
         rules = []
         while len(rules) < n_zones:
             r = P.gen_rule(rng, std_only_p=0.0)
@@ -482,9 +506,10 @@ def main():
                     if "rule" in e:
                         check_zone(verdict, st, o, check_C08.from_json_rule(e["rule"]), rng, qyears,
                                    e.get("idx", k), tier)
+        t_stream = time.time()
         for k, r in enumerate(rules):
             check_zone(verdict, st, o, r, rng, qyears, k, tier)
-            if tier == "quick" and time.time() - t0 > 120:
+            if tier == "quick" and time.time() - t_stream > 100:
                 st.bump("zone_stream_cut_by_budget_at", k)
                 break
         # ---- parser stream
@@ -558,6 +583,7 @@ def main():
         verdict.violation({"kind": "broken proof obligation", "theorem_file": "coq/props/C17.v",
                            "theorems": props["theorems"], "discharged": props["discharged"], "input": None,
                            "log_tail": (props["log"] or "")[-3000:]}, concrete=False)
+    verdict.violations.sort(key=lambda pc: 0 if pc[1] else 1)   # concrete failing inputs first
     rc = verdict.finish()
     if os.environ.get("VERIF_DEBUG"):
         kinds = {}
